@@ -11,7 +11,7 @@ from .common import TOL
 PROPERTY = "C18"
 LEVEL = "fault_enumeration"
 USES_AIOCOAP_NET = False  # the check builds one nested simulation per shutdown instant itself
-RUNS = {"quick": 110, "thorough": 4000}
+RUNS = {"quick": 300, "thorough": 4000}
 BUDGET = {"quick": 95, "thorough": 3000}
 RULE = ("each seeded busy scenario (target context with requests awaiting ACK, awaiting a separate response, mid "
         "block-wise transfer in both directions, active observations on both sides, queued NSTART backlog, pending "
